@@ -68,6 +68,29 @@ def parseKind (args : List String) : Option (Kind × Option Bytes) :=
     | _, _ => none
   | _ => none
 
+def stepCodec (line : String) : Option String :=
+  match line.trimAscii.toString.splitOn " " with
+  | "venc32" :: v :: _ => v.toNat?.map fun v => "bytes " ++ hex (venc32 (v % 4294967296))
+  | "venc64" :: v :: _ => v.toNat?.map fun v => "bytes " ++ hex (venc v)
+  | "vlen" :: v :: _ => v.toNat?.map fun v => "n " ++ toString (vlen v)
+  | "vdec32" :: h :: _ => (unhex h).map fun d => let r := vdecode32 d; "val " ++ toString r.1 ++ " " ++ toString r.2
+  | "vdec64" :: h :: _ => (unhex h).map fun d => let r := vdecode64 d; "val " ++ toString r.1 ++ " " ++ toString r.2
+  | "vlenp" :: h :: _ => (unhex h).map fun d => "n " ++ toString (vlenPacked d)
+  | "fix32" :: v :: _ => v.toNat?.map fun v => "bytes " ++ hex (fixed32 (v % 4294967296))
+  | "fix64" :: v :: _ => v.toNat?.map fun v => "bytes " ++ hex (fixed64 v)
+  | "dfix32" :: h :: _ => (unhex h).map fun d => "val " ++ toString (dec32 d)
+  | "dfix64" :: h :: _ => (unhex h).map fun d => "val " ++ toString (dec64 d)
+  | ["crc", impl, al, h] =>
+    match al.toNat?, unhex h with
+    | some a, some d =>
+      if impl == "api" then some ("crc " ++ toString (crc32c d))
+      else if impl == "slicing" then some ("crc " ++ toString (slicing a d))
+      else if impl == "sse42" then some ("crc " ++ toString (sse42 d))
+      else none
+    | _, _ => none
+  | _ => none
+
+
 def stepMore (s : St) (line : String) : St × String :=
   match line.trimAscii.toString.splitOn " " with
   | "r.it" :: rid :: iid :: kargs =>
@@ -106,7 +129,9 @@ def stepMore (s : St) (line : String) : St × String :=
     | some i => ({ s with riters := s.riters.erase i }, "ok")
     | none => (s, "bad-op")
   | ["reset"] => ({ fixF1 := s.fixF1, fixF9 := s.fixF9 }, "ok")
-  | _ => (s, "bad-op")
+  | _ => match stepCodec line with
+    | some r => (s, r)
+    | none => (s, "bad-op")
 
 def step (s : St) (line : String) : St × String :=
   match line.trimAscii.toString.splitOn " " with
